@@ -2,6 +2,7 @@
 K3: no reflective access by a script-controlled name; property reads dispatch only on literal tables.
 B: receiver kind x property name x access form grid with a run-time monitor asserting is_js_value on every
 value pushed on the operand stack / handed to the embedder."""
+from pyvc import structural as _S_
 from pyvc import groups
 from pyvc.groups import ob
 
@@ -22,17 +23,17 @@ def c03_struct(tier="quick", seed=0):
                 name = n.func.id
                 if name in ("getattr", "setattr", "hasattr", "delattr"):
                     ok = len(n.args) >= 2 and isinstance(n.args[1], ast.Constant) and isinstance(n.args[1].value, str)
-                    det = ast.unparse(n)[:80]
+                    det = _S_.unparse(n)[:80]
                 else:
                     ok = False
-                    det = ast.unparse(n)[:80]
+                    det = _S_.unparse(n)[:80]
                 out.append(ob(f"C03.struct.reflection.{mod.split('.')[-1]}.L{n.lineno}", ok, "K3",
                               f"{det}: attribute name is a literal: {ok}",
                               witness="({}).__class__ / [].__dict__ / (function(){}).__globals__ (a reflective access with a computed name at "
                                       f"{mod}:{n.lineno})", key=f"C03.struct.reflection.{mod.split('.')[-1]}.{name}"))
             if isinstance(n, ast.Attribute) and n.attr in ("__dict__", "__class__", "__globals__", "__subclasses__", "__mro__", "__builtins__"):
                 # `cls.__mro__`-style introspection is not allowed in code reachable from scripts
-                out.append(ob(f"C03.struct.dunder.{mod.split('.')[-1]}.L{n.lineno}", False, "K3", f"use of {ast.unparse(n)[:60]}"))
+                out.append(ob(f"C03.struct.dunder.{mod.split('.')[-1]}.L{n.lineno}", False, "K3", f"use of {_S_.unparse(n)[:60]}"))
     out.append(ob("C03.struct.inventory", total > 0, "K3", f"{total} reflective calls inspected"))
     # _get_property / _set_property / _delete_property: key_str flows only into dictionary methods, comparisons and the fixed tables
     # The sinks a key may reach: the own-property methods of the value classes (taken from the real source of
@@ -56,7 +57,7 @@ def c03_struct(tier="quick", seed=0):
                 uses_key = any(isinstance(a, ast.Name) and a.id in ("key_str", "key") for a in n.args)
                 if uses_key and fn_name not in conversions and fn_name not in tables and fn_name not in value_methods \
                         and fn_name not in ("get", "pop", "setdefault"):
-                    bad.append(f"{fn_name}({ast.unparse(n)[:50]})")
+                    bad.append(f"{fn_name}({_S_.unparse(n)[:50]})")
         out.append(ob(f"C03.struct.key-flow.{fname.split('.')[-1]}", not bad, "K3", f"script-controlled key reaches: {bad or 'only property dictionaries, conversions and fixed method tables'}"))
     # inside the value classes a parameter named `key` is used as a dictionary key / compared / converted only
     bad = []
@@ -71,7 +72,7 @@ def c03_struct(tier="quick", seed=0):
                     fn_name = n.func.attr if isinstance(n.func, ast.Attribute) else getattr(n.func, "id", "")
                     uses_key = any(isinstance(a, ast.Name) and a.id == "key" for a in n.args)
                     if uses_key and fn_name not in conversions and fn_name not in value_methods and fn_name not in ("get", "pop", "setdefault", "discard", "add"):
-                        bad.append(f"{cname}.{name}: {ast.unparse(n)[:50]}")
+                        bad.append(f"{cname}.{name}: {_S_.unparse(n)[:50]}")
     out.append(ob("C03.struct.key-flow.value-classes", not bad and nchecked > 0, "K3",
                   f"{nchecked} methods of microjs.values take a key; it reaches: {bad or 'dictionary operations, comparisons and conversions only'}"))
     # the _make_*_method factories select closures from a literal dict with a constant fallback
@@ -79,7 +80,7 @@ def c03_struct(tier="quick", seed=0):
                 "_make_function_method", "_make_callable_method", "_make_object_method"):
         f = S.fn("microjs.vm", "VM." + fac)
         last = f.body[-1]
-        ok = isinstance(last, ast.Return) and ast.unparse(last.value).startswith("methods.get(method, lambda *args: UNDEFINED)")
+        ok = isinstance(last, ast.Return) and _S_.unparse(last.value).startswith("methods.get(method, lambda *args: UNDEFINED)")
         out.append(ob(f"C03.struct.method-table.{fac}", ok, "K3", f"{fac} returns methods.get(method, <undefined fn>): {ok}"))
     return out
 
